@@ -43,6 +43,13 @@ void fb_invn_low(dig_t *c, const dig_t *a) {
 	rlc_align dig_t _g1[2 * RLC_FB_DIGS], _g2[2 * RLC_FB_DIGS];
 	dig_t *t = NULL, *u = NULL, *v = NULL, *g1 = NULL, *g2 = NULL, carry;
 
+	if (fb_bits(a) == 1) {
+		/* The loop tests u = 1 only after a reduction step and would return
+		 * the unreduced z^m + f(z) + 1 for a = 1. */
+		fb_set_dig(c, 1);
+		return;
+	}
+
 	dv_zero(_g1, RLC_FB_DIGS + 1);
 	dv_zero(_g2, RLC_FB_DIGS + 1);
 
